@@ -2,7 +2,7 @@
    A stored constraint KDiseq ps means "not all equations of ps hold": [holds th ps].
    th ranges over *all* substitutions that solve the current bindings ([sat th s]). *)
 From Coq Require Import List ZArith Bool Arith.
-From PV Require Import Model.Term Model.Subst Model.Unify Model.FD Model.State Proofs.UnifyProofs Proofs.DiseqProofs Model.Engine Proofs.SemProofs Proofs.MonoProofs Proofs.DenProofs.
+From PV Require Import Model.Term Model.Subst Model.Unify Model.FD Model.State Proofs.UnifyProofs Proofs.DiseqProofs Model.Engine Proofs.SemProofs Proofs.MonoProofs Proofs.DenProofs Proofs.FDDen Proofs.FDComp Proofs.DisunifyC.
 Import ListNotations.
 
 (* posting u != v: nothing is stored when u and v can never be equal, the goal fails when they are
@@ -76,6 +76,15 @@ Check C02_post_diseq : forall st u v,
   | UOk _ ext => forall th, sat th (st_smap st) -> (holds th ext <-> app th u <> app th v)
   | UOOF => True
   end.
+(* complete: posting u != v loses no solution - every valuation that solves the state (substitution, every
+   stored constraint, every domain) and makes the two sides different solves the state that is
+   returned - and it fails only when no such valuation exists; the same for the re-check of the whole
+   store after the substitution grew (FDComp.run_constraints_C covers the stored disequalities) *)
+Theorem C02_diseq_complete : forall st u v, sresCP (fun th => app th u <> app th v) st (state_disunify st u v).
+Proof. exact state_disunify_C. Qed.
+Theorem C02_recheck_complete : forall f st, WFD st -> sresCP QT st (run_constraints f st).
+Proof. exact run_constraints_C. Qed.
+
 Print Assumptions C02_post_diseq.
 Print Assumptions C02_recheck.
 Print Assumptions C02_subsumes.
@@ -85,3 +94,5 @@ Print Assumptions C02_answers_sound.
 Print Assumptions C02_eq_den.
 Print Assumptions C02_diseq_den.
 Print Assumptions C02_rerun_refines.
+Print Assumptions C02_diseq_complete.
+Print Assumptions C02_recheck_complete.
